@@ -32,7 +32,7 @@ import logging.config
 from typing import List
 
 import pathspec
-from confuse import Configuration
+from confuse import Configuration, ConfigTypeError
 from pkg_resources import get_distribution, DistributionNotFound
 
 from .config import config_template, dict_to_settings, Settings
@@ -128,7 +128,12 @@ def main(args: List[str] = tuple(sys.argv[1:])):
 
     settings_obj = dict_to_settings(settings_dict)
 
-    # Concatenate all exclude filters rather than overriding the entire list
+    # Concatenate all exclude filters rather than overriding the entire list.
+    # A scalar would be iterated character by character, so insist on lists
+    for source_filters, _ in settings["input"]["exclude_filters"].resolve():
+        if not isinstance(source_filters, (list, tuple)):
+            raise ConfigTypeError(
+                f"input.exclude_filters must be a list of patterns, not {type(source_filters).__name__}")
     settings_obj.input.exclude_filters = list(
         settings["input"]["exclude_filters"].all_contents())
 
